@@ -16,6 +16,7 @@ infidelity_derivative keep a bit-identical physical definition.
 """
 import copy
 import hashlib
+import os
 import warnings
 import numpy as np
 import filter_functions as ff
@@ -23,8 +24,34 @@ from filter_functions import numeric, util, gradient, superoperator, analytic, b
 from .. import cachesim as cs, gen
 from . import c07
 
+# The alias IR of the current sources (coq/Extracted/AliasIR.v) must exist before the Coq build of
+# Properties/C18.v, which tools/check.py runs before calling run(): regenerate it when this module is imported
+# (tools/extract.py is frozen for this property; the proper hook would be a call of tools/alias_extract.py next to
+# it in check.py).  run() regenerates again and reports if the file changed in between.
+import importlib.util as _ilu
+_spec = _ilu.spec_from_file_location('alias_extract', os.path.join(os.path.dirname(os.path.dirname(os.path.dirname(
+    os.path.abspath(__file__)))), 'alias_extract.py'))
+alias_extract = _ilu.module_from_spec(_spec)
+_spec.loader.exec_module(alias_extract)
+try:
+    ALIAS = alias_extract.main()
+except Exception as _e:      # noqa -- fail closed: an IR that cannot be produced is a broken obligation
+    ALIAS = dict(functions=0, statements=0, publics=0, problems=['alias_extract failed: %r' % _e], violations=[])
+    with open(alias_extract.OUT, 'w') as _f:
+        _f.write('From Coq Require Import List String NArith.\nFrom FF Require Import Model.Alias.\nImport ListNotations.\n'
+                 'Local Open Scope string_scope.\nDefinition alias_fnames : list (N * string) := [].\n'
+                 'Definition alias_prog : prog := [].\nDefinition alias_cert : cert := [].\n'
+                 'Definition alias_publics : list (fname * list nat) := [].\n'
+                 'Definition alias_untranslated : list string := ["alias_extract failed"].\n')
+
 ID = 'C18'
-TRUSTED = ['ownership half: decided by exploration (fingerprints / write protection on sampled calls), not by a theorem',
+TRUSTED = ['ownership half: the translation Python -> alias IR (tools/alias_extract.py): the numpy view / copy / in-place '
+           'classification tables (VIEW_FUNCS, VIEW_METHODS, VIEW_ATTRS, RECONTAINER_FUNCS, INPLACE_METHODS, INPLACE_FUNCS, '
+           'FRESH_*), the translation rules (two-level object / contents representation, reaching definitions, '
+           'advanced indexing copies, scalar depth from type annotations, fresh *args / **kwargs, attribute assignment is '
+           'rebinding, strong attribute updates of objects built locally), and that the flow-insensitive IR semantics '
+           'over-approximates Python; the certificate in Extracted/AliasIR.v is NOT trusted (re-checked by `safe`); the '
+           'exploration with fingerprinted / write-protected arguments supports exactly this trusted part',
            'Python object semantics modelled in Model/Cache.v (see C07)',
            'fault injection by monkeypatching module attributes inside the harness process']
 ASSUMPTIONS = ['exceptions are raised by numeric routines (at their call), by argument validation before the first effect, '
@@ -499,9 +526,33 @@ def systematic_failures(wk):
                        ('call', 0, ('GetFF', g, 'Fidelity', 'Second', False)), ('call', 0, ('GetDeriv', g))]
 
 
+def alias_failures():
+    """regenerate the alias IR; failures for constructs that could not be translated / writes the certificate admits"""
+    out = []
+    before = open(alias_extract.OUT).read() if os.path.exists(alias_extract.OUT) else ''
+    try:
+        res = alias_extract.main()
+    except Exception as e:      # noqa
+        res = dict(functions=0, statements=0, publics=0, problems=['alias_extract failed: %r' % e], violations=[])
+    if open(alias_extract.OUT).read() != before:
+        out.append(dict(kind='harness', observable='alias IR changed during the run', signature='c18-alias-stale',
+                        detail='coq/Extracted/AliasIR.v was regenerated with different content after the Coq build: the '
+                               'sources changed during the run; re-run', input=None))
+    for p in res['problems'][:5]:
+        out.append(dict(kind='prop', observable='ownership analysis: construct not expressible in the alias IR',
+                        signature='c18-alias-untranslated', detail=p, input=dict(kind='alias', what=p)))
+    for v in res['violations'][:5]:
+        out.append(dict(kind='prop', observable='ownership analysis: a public function may write caller-owned memory',
+                        signature='c18-alias-violation', detail=v + ' (explain: tools/alias_extract.py --explain <function>)',
+                        input=dict(kind='alias', what=v)))
+    return res, out
+
+
 def run(ctx):
     r = ctx.rng(18)
     failures, samples, classes = [], [], {}
+    alias_res, alias_fail = alias_failures()
+    failures += alias_fail
     items = []
     nrand = 1200 if ctx.thorough else 220
     for n in range(nrand):
@@ -574,6 +625,8 @@ def run(ctx):
     for kind, what, detail, inp in bad[:5]:
         failures.append(dict(kind='prop', observable='results after a fault inside a numeric helper: ' + what,
                              signature='c18-deep-fault-' + what, detail=detail, input=dict(kind='deep', **inp)))
+    classes['alias IR: functions (with return / store variants)'] = alias_res['functions']
+    classes['alias IR: public functions checked by safe'] = alias_res['publics']
     classes['ownership scenarios (x2 modes)'] = n_own
     classes['returned-array re-hash points'] = n_ret
     classes['deep fault injections'] = n_deep
@@ -584,7 +637,9 @@ def run(ctx):
                      '(pulse kind, number of aborted calls, length) classes plus scenario groups',
                 samples=samples, failures=failures, classes=classes,
                 corr=dict(calls_agree=agree, calls_total=ncalls, aborted_calls=nfail_calls, histories=len(todo),
-                          ownership_scenarios=n_own, returned_array_checks=n_ret, deep_faults=n_deep))
+                          ownership_scenarios=n_own, returned_array_checks=n_ret, deep_faults=n_deep,
+                          alias_ir_functions=alias_res['functions'], alias_ir_statements=alias_res['statements'],
+                          alias_ir_publics=alias_res['publics']))
 
 
 def replay(ctx, rep):
@@ -592,6 +647,10 @@ def replay(ctx, rep):
     if not inp:
         return False, 'replay names a broken obligation: %s' % rep.get('observable')
     kind = inp.get('kind')
+    if kind == 'alias':
+        res, fails = alias_failures()
+        bad = [f for f in fails if f['signature'] != 'c18-alias-stale']
+        return (not bad), ('replay reproduces: %s' % bad[0]['detail'] if bad else 'replay: the ownership analysis accepts the sources')
     if kind == 'scenario':
         n, bad = ownership_checks(ctx.rng(18))
         bad = [b for b in bad if b[1] == inp['name']]
@@ -656,6 +715,13 @@ def replay(ctx, rep):
 def search(ctx, broken):
     r = ctx.rng(1818)
     out = []
+    _, fails = alias_failures()
+    for f in fails:
+        if f['signature'] != 'c18-alias-stale':
+            f['broken_obligations'] = broken
+            out.append(f)
+    if out:
+        return out[:3]
     n, bad = deep_fault_check(r, 500)
     for kind, what, detail, inp in bad[:1]:
         out.append(dict(kind='prop', observable='results after a fault inside a numeric helper: ' + what,
